@@ -34,6 +34,61 @@ import (
 	"github.com/google/pprof/profile"
 )
 
+// ---------- auto-dictionary ----------
+
+// The instrumenter harvests the string and integer literals of the current
+// tree (dict.json); the generators mix them into their vocabularies and size
+// choices, so that magic names and thresholds of the code under test - also
+// ones a later change introduces - are within reach of the workloads.
+var (
+	dictS      []string
+	dictI      []int
+	dictLoaded bool
+)
+
+func loadDict() {
+	if dictLoaded {
+		return
+	}
+	dictLoaded = true
+	data, err := os.ReadFile(os.Getenv("VERIF_DICT"))
+	if err != nil {
+		return
+	}
+	var d struct {
+		Strings []string `json:"strings"`
+		Ints    []int    `json:"ints"`
+	}
+	if json.Unmarshal(data, &d) == nil {
+		dictS, dictI = d.Strings, d.Ints
+	}
+}
+
+// dictStr returns a literal of the tree (or fallback if there is no dictionary).
+func dictStr(t *simrt.Tape, fallback string) string {
+	loadDict()
+	if len(dictS) == 0 {
+		return fallback
+	}
+	return dictS[t.Choose(simrt.KGen, len(dictS))]
+}
+
+// dictSize returns an integer literal of the tree, minus one, as is, or plus
+// one, capped at max (or fallback).
+func dictSize(t *simrt.Tape, max, fallback int) int {
+	loadDict()
+	var ok []int
+	for _, v := range dictI {
+		if v+1 <= max {
+			ok = append(ok, v)
+		}
+	}
+	if len(ok) == 0 {
+		return fallback
+	}
+	return ok[t.Choose(simrt.KGen, len(ok))] - 1 + t.Choose(simrt.KGen, 3)
+}
+
 // ---------- violations, records ----------
 
 type violation struct {
